@@ -117,7 +117,7 @@ class VUnit:
                 if os.path.exists(p):
                     try:
                         src = open(p).read()
-                        a, _, _ = find_fn(src, e["fn"], e.get("impl"))
+                        a, _, _ = find_fn(src, e["fn"], e.get("impl"), e.get("trait"))
                         line = src.count("\n", 0, a) + 1
                     except Undecided:
                         pass
@@ -168,6 +168,27 @@ def _code_mask(src):
     return mask
 
 
+def find_trait_impl_block(src, trait, ty):
+    mask = _code_mask(src)
+    res = []
+    for m in re.finditer(r"\bimpl(?:<[^>{]*>)?\s+" + re.escape(trait) + r"(?:<[^{]*?>)?\s+for\s+" + re.escape(ty) + r"(?:<[^>{]*>)?\s*(?:where[^{]*)?\{", src):
+        if mask[m.start()]:
+            o = m.end() - 1
+            res.append((o, _match_paren(src, o)))
+    if not res:
+        raise Undecided(f"lost anchor: impl {trait} for {ty} not found")
+    return res
+
+
+def find_enum(src, name):
+    mask = _code_mask(src)
+    for m in re.finditer(r"\benum\s+" + re.escape(name) + r"\b[^{;(]*\{", src):
+        if mask[m.start()]:
+            o = m.end() - 1
+            return m.start(), o, _match_paren(src, o)
+    raise Undecided(f"lost anchor: enum {name} not found")
+
+
 def find_impl_block(src, ty):
     """(start, end) of the body `{...}` of the first inherent `impl <ty>` block containing nothing
     trait-ish; searched at top level"""
@@ -184,10 +205,13 @@ def find_impl_block(src, ty):
     return res
 
 
-def find_fn(src, name, impl=None):
+def find_fn(src, name, impl=None, trait=None):
     """returns (item_start, body_open_idx, body_end) for fn `name` (inside `impl <impl>` if given)"""
     mask = _code_mask(src)
-    ranges = find_impl_block(src, impl) if impl else [(0, len(src))]
+    if impl and trait:
+        ranges = find_trait_impl_block(src, trait, impl)
+    else:
+        ranges = find_impl_block(src, impl) if impl else [(0, len(src))]
     hits = []
     for (a, b) in ranges:
         for m in re.finditer(r"\bfn\s+" + re.escape(name) + r"\b", src[a:b]):
@@ -325,13 +349,18 @@ def compose(unit, outdir):
                 raise Undecided(f"lost anchor: struct {e['struct']} has no field(s) {missing}")
             structs.append(f"pub struct {e['struct']} {{\n" + "\n".join(kept) + "\n}")
             continue
+        if "enum" in e:
+            a, o, b = find_enum(src, e["enum"])
+            body = _strip_attrs_docs(src[o:b])
+            structs.append(f"pub enum {e['enum']} " + body)
+            continue
         if "const" in e:
             c = find_const(src, e["const"])
             c = re.sub(r"^pub(?:\([a-z]+\))?\s+", "", c)
             consts.append("pub " + c)
             continue
         name, impl = e["fn"], e.get("impl")
-        a, o, b = find_fn(src, name, impl)
+        a, o, b = find_fn(src, name, impl, e.get("trait"))
         orig = src[a:b]
         sig = src[a:o].rstrip()
         body = src[o:b]
@@ -353,6 +382,10 @@ def compose(unit, outdir):
             if fn_ != key:
                 continue
             bl = body2.split("\n")
+            if after == "BODY_START":
+                bl[1:1] = lines
+                body2 = "\n".join(bl)
+                continue
             idx = [i for i, l in enumerate(bl) if l.strip() == after]
             if len(idx) != 1:
                 raise Undecided(f"lost anchor: {len(idx)} statements <<{after}>> in fn {key}")
@@ -452,6 +485,9 @@ def add_canaries(text):
         ls = text.rfind("\n", 0, pos) + 1
         if re.search(r"\bspec\b", text[ls:pos]):
             continue
+        prev = text[max(0, text.rfind("\n", 0, max(0, ls - 1))):ls]
+        if "external_body" in prev:
+            continue  # trusted axiom: body not checked by Verus, listed in the assumption scan
         depth = 0
         body_open = None
         for j, c in _code_positions(text[pos:]):
